@@ -44,6 +44,43 @@ func ruleFmtIndent(c *Ctx) {
 		reach := bs.reachUnderSym(fn, isKindCall, dom)
 		writes, width := false, false
 		var at token.Pos
+		// scan: the calls of one block; module functions of package format called from an Indent-only block are
+		// followed as a whole (a per-kind helper), two levels deep
+		var scanInstrs func(instrs []ssa.Instruction, depth int)
+		seenFn := map[*ssa.Function]bool{}
+		scanInstrs = func(instrs []ssa.Instruction, depth int) {
+			for _, in := range instrs {
+				cl, ok := in.(*ssa.Call)
+				if !ok {
+					continue
+				}
+				f := cl.Call.StaticCallee()
+				if f == nil {
+					continue
+				}
+				if f.Signature.Recv() != nil {
+					rt := typeName(deref(f.Signature.Recv().Type()))
+					if rt == "formatWriter" {
+						writes = true
+						if at == token.NoPos {
+							at = cl.Pos()
+						}
+					}
+					if rt == "Inline" && f.Name() == "IndentWidth" {
+						width = true
+					}
+				}
+				if f.Pkg == p.FMTs && f.Blocks != nil && depth < 2 && !seenFn[f] {
+					if f.Signature.Recv() != nil && typeName(deref(f.Signature.Recv().Type())) == "formatWriter" {
+						continue
+					}
+					seenFn[f] = true
+					for _, b := range f.Blocks {
+						scanInstrs(b.Instrs, depth+1)
+					}
+				}
+			}
+		}
 		for _, b := range fn.Blocks {
 			if !reach[b][indent] {
 				continue
@@ -55,26 +92,10 @@ func ruleFmtIndent(c *Ctx) {
 					all = false
 				}
 			}
-			for _, in := range b.Instrs {
-				cl, ok := in.(*ssa.Call)
-				if !ok {
-					continue
-				}
-				f := cl.Call.StaticCallee()
-				if f == nil || f.Signature.Recv() == nil {
-					continue
-				}
-				rt := typeName(deref(f.Signature.Recv().Type()))
-				if rt == "formatWriter" && !all {
-					writes = true
-					if at == token.NoPos {
-						at = cl.Pos()
-					}
-				}
-				if rt == "Inline" && f.Name() == "IndentWidth" {
-					width = true
-				}
+			if all {
+				continue
 			}
+			scanInstrs(b.Instrs, 0)
 		}
 		if !writes {
 			continue
